@@ -14,7 +14,7 @@ EVID = os.path.join(ROOT, "evidence")
 REPLAYS = os.path.join(ROOT, "replays")
 
 
-def _config_child(module_name, cfg, queries, Ks, timeout_s, seed, conn):
+def _config_child(module_name, cfg, queries, Ks, timeout_s, seed, conn, extra_module=None, faults_may_block=False):
     res = {"cfg": cfg, "ok": False}
     t0 = time.time()
     try:
@@ -54,7 +54,7 @@ def _config_child(module_name, cfg, queries, Ks, timeout_s, seed, conn):
         K_ok = None
         tried = []
         for K in Ks:
-            r = driver.check(S, K, which=("unwind",), timeout_s=timeout_s, seed=seed)["unwind"]
+            r = driver.check(S, K, which=("unwind",), timeout_s=timeout_s, seed=seed, context_bound=cfg.get("context_bound"))["unwind"]
             tried.append({"K": K, "result": r["result"], "time_s": r["time_s"], "flags": r.get("flags")})
             if r["result"] == "unsat":
                 K_ok = K
@@ -69,7 +69,14 @@ def _config_child(module_name, cfg, queries, Ks, timeout_s, seed, conn):
         res["K"] = K
         res["unwind_ok"] = K_ok is not None
         which = [q for q in queries if q != "unwind"]
-        out = driver.check(S, K, which=which, timeout_s=timeout_s, seed=seed, witness_extra=wit_extra)
+        extra = None
+        if extra_module:
+            extra = importlib.import_module(extra_module).extra_assert
+        if faults_may_block:
+            nofault = [z3.Not(z3.Bool(n + "@0")) for n in S.vars if n.startswith("fault.")]
+            if nofault:
+                wit_extra = z3.And(wit_extra, *nofault) if wit_extra is not None else z3.And(nofault)
+        out = driver.check(S, K, which=which, timeout_s=timeout_s, seed=seed, witness_extra=wit_extra, assert_extra=extra, context_bound=cfg.get("context_bound"))
         for q, r in out.items():
             res["queries"][q] = r
         if cfg.get("cross_check_por"):
@@ -85,7 +92,7 @@ def _config_child(module_name, cfg, queries, Ks, timeout_s, seed, conn):
         conn.close()
 
 
-def run_configs(module_name, cfgs, queries, Ks, timeout_s, seed=0, nproc=None, wall_limit=None, verbose=True):
+def run_configs(module_name, cfgs, queries, Ks, timeout_s, seed=0, nproc=None, wall_limit=None, verbose=True, extra_module=None, faults_may_block=False):
     nproc = nproc or int(os.environ.get("VERIF_NPROC", "0")) or min(16, os.cpu_count() or 4)
     ctx = mp.get_context("fork")
     results = [None] * len(cfgs)
@@ -95,7 +102,7 @@ def run_configs(module_name, cfgs, queries, Ks, timeout_s, seed=0, nproc=None, w
         while pending and len(live) < nproc:
             i = pending.pop()
             a, b = ctx.Pipe(duplex=False)
-            p = ctx.Process(target=_config_child, args=(module_name, cfgs[i], queries, cfgs[i].get("Ks", Ks), timeout_s, seed, b), daemon=True)
+            p = ctx.Process(target=_config_child, args=(module_name, cfgs[i], queries, cfgs[i].get("Ks", Ks), timeout_s, seed, b, extra_module, faults_may_block), daemon=True)
             p.start()
             b.close()
             live[i] = (p, a, time.time())
@@ -168,7 +175,7 @@ def save_replay(prop, spec, observed):
     return path
 
 
-def run_property(prop, tier, seed, module_name, cfgs, claim_queries, Ks, timeout_s, meta, wall_limit=None):
+def run_property(prop, tier, seed, module_name, cfgs, claim_queries, Ks, timeout_s, meta, wall_limit=None, extra_module=None, faults_may_block=False):
     """claim_queries: subset of {"assert", "deadlock"} whose `sat` is a violation of this property.
     `unwind` must be unsat for a configuration to count as discharged; `witness` must be sat (vacuity guard)."""
     from vf import runner as xr
@@ -176,7 +183,7 @@ def run_property(prop, tier, seed, module_name, cfgs, claim_queries, Ks, timeout
     known = xr.load_findings(prop)
     queries = sorted(set(claim_queries) | {"unwind", "witness", "assert", "deadlock"})
     print("== %s tier=%s: %d configurations, queries %s ==" % (prop, tier, len(cfgs), queries), flush=True)
-    results = run_configs(module_name, cfgs, queries, Ks, timeout_s, seed, wall_limit=wall_limit)
+    results = run_configs(module_name, cfgs, queries, Ks, timeout_s, seed, wall_limit=wall_limit, extra_module=extra_module, faults_may_block=faults_may_block)
     violations, harness_errors, inconclusive, known_rep = [], [], [], []
     obligations = discharged = 0
     samples = []
@@ -218,6 +225,17 @@ def run_property(prop, tier, seed, module_name, cfgs, claim_queries, Ks, timeout
             samples.append({"configuration": name, "params": wit.get("params"),
                             "witness_schedule": ["%s:%s" % (s["thread"], s["op"]) for s in wit.get("schedule", [])][:120]})
         witness_ok = wit.get("result") == "sat"
+        if witness_ok:
+            # translator validation: the witness schedule found in the MODEL is executed on the REAL classes
+            wspec = {"engine": "bmc", "module": module_name, "cfg": cfg, "query": "witness", "params": wit.get("params"),
+                     "faults": wit.get("faults"), "schedule": wit.get("schedule")}
+            wr = replay_in_subprocess(wspec)
+            validated += 1
+            row["witness_replay_on_real_code"] = {"end": wr.get("end"), "divergence": wr.get("divergence"), "asserts": wr.get("asserts"),
+                                                  "ops_executed": wr.get("ops_executed")}
+            if wr.get("divergence") or wr.get("end") != "done" or wr.get("asserts") or wr.get("crashed"):
+                harness_errors.append("configuration %s: the model's witness schedule does not run on the real code as predicted "
+                                      "(model and implementation disagree): %s" % (name, json.dumps(row["witness_replay_on_real_code"], default=str)))
         if r.get("no_por"):
             for q, v in r["no_por"].items():
                 solver_time += v["time_s"]
@@ -243,7 +261,7 @@ def run_property(prop, tier, seed, module_name, cfgs, claim_queries, Ks, timeout
                     print("INCONCLUSIVE property=%s configuration=%s query=%s: unwinding bound not established at K=%d" % (prop, name, q, r["K"]), flush=True)
             elif qr["result"] == "sat":
                 spec = {"engine": "bmc", "module": module_name, "cfg": cfg, "query": q, "params": qr.get("params"),
-                        "flags": qr.get("flags"), "schedule": qr.get("schedule")}
+                        "flags": qr.get("flags"), "faults": qr.get("faults"), "schedule": qr.get("schedule")}
                 rr = replay_in_subprocess(spec)
                 validated += 1
                 sig = "%s:%s" % (q, ",".join(sorted(f.replace("flag.", "").replace(":b", "") for f in (qr.get("flags") or []))) or q)
